@@ -16,22 +16,66 @@
 (*                 that already released the read lock evaluates a mixture *)
 (* OldOrNew: every decision is the decision of one version that was        *)
 (* current at some instant between the request's invocation and return.    *)
+(*                                                                         *)
+(* FIRST USE.  A rule decides by comparing a number kept in the resource's *)
+(* STATISTIC OBJECT with its threshold ("admit while count + 1 <= thr"),   *)
+(* and every admitted request is counted on the statistic object it was    *)
+(* given.  The statistic object of a resource is created ON DEMAND by its  *)
+(* first user - a request, or a loader binding a rule to it: look the      *)
+(* resource up in the registry (read-locked); on a miss enter the write    *)
+(* section, look again, and only if it is still missing create and         *)
+(* register a new object.                                                  *)
+(*   Fresh = TRUE : the resource has never been seen: no statistic object, *)
+(*                  no rules; the loader installs versions 1..K whose      *)
+(*                  limiting rule has threshold T + k - 1, racing with the *)
+(*                  first requests of the resource.                        *)
+(*   Bind = "load": the rule reads the object the LOADER obtained when it  *)
+(*                  built the list (flow rules; a later version reuses the *)
+(*                  object bound to the version in force)                  *)
+(*   Bind = "req" : the rule reads the object the REQUEST was given        *)
+(*                  (isolation: concurrency of the request's own node)     *)
+(*   Recheck = FALSE: spec-level mutant "two creators both install" - the  *)
+(*                  second look inside the write section is skipped, so    *)
+(*                  two first users both register an object and the first  *)
+(*                  one is orphaned.                                       *)
+(* After every racing process has finished, a prober issues P sequential   *)
+(* requests.  Enforced: each of them is admitted iff the number of         *)
+(* requests admitted so far + 1 <= the threshold of the version in force;  *)
+(* StatAgrees: at quiescence the registered statistic object shows exactly *)
+(* the admitted requests.                                                  *)
 (***************************************************************************)
 EXTENDS Integers, Sequences, FiniteSets, TLC
 
-CONSTANTS K, NR, Swap
+CONSTANTS K, NR, Swap, Fresh, Recheck, Bind, T, P
 
+Inf == 1000                                   \* threshold of a rule that admits everything
 Blocks(k, pos) == IF k % 2 = 0 THEN pos = 1 ELSE pos = 2
-Version(k) == <<[k |-> k, pos |-> 1], [k |-> k, pos |-> 2]>>
+\* the rule at position pos of version k, reading statistic object st (0 = the request's own object)
+Cell(k, pos, st) == [k |-> k, pos |-> pos, stat |-> st,
+                     thr |-> IF Fresh THEN (IF pos = 1 THEN T + k - 1 ELSE Inf)
+                                      ELSE (IF Blocks(k, pos) THEN 0 ELSE Inf)]
+Version(k, st) == <<Cell(k, 1, st), Cell(k, 2, st)>>
+\* the threshold enforced by version k as a whole (version 0 = no rules)
+Limit(k) == IF k = 0 THEN Inf
+            ELSE IF Cell(k, 1, 0).thr < Cell(k, 2, 0).thr THEN Cell(k, 1, 0).thr ELSE Cell(k, 2, 0).thr
+First == IF Fresh THEN 0 ELSE 1               \* the version in force before the loader starts
+\* the admission rule shared with RuleSwitch_Trace: a rule with threshold thr rejects when n are counted
+Rejects(n, thr) == n + 1 > thr
+NoCell == [k |-> 0, pos |-> 0, stat |-> 0, thr |-> 0]
 
 (* --algorithm RuleSwitch {
 variables
-    heap = (1 :> Version(1)),      \* list objects: id -> list of two rule cells
-    cur = 1,                       \* the resource's current list object
+    heap = IF Fresh THEN (0 :> << >>) ELSE (1 :> Version(1, 1)),   \* list objects: id -> list of rule cells
+    cur = First,                   \* the resource's current list object
     lock = 0,                      \* 0 free, -1 writer, n > 0 readers
     seq = 0,
-    loads = (1 :> [ls |-> 0, le |-> 0]),
-    done = {};                     \* completed requests [inv, ret, pass, marker]
+    loads = (First :> [ls |-> 0, le |-> 0]),
+    done = {},                     \* completed requests [inv, ret, pass, marker]
+    reg = IF Fresh THEN 0 ELSE 1,  \* registry: the statistic object registered for the resource (0 = none)
+    nn = IF Fresh THEN 0 ELSE 1,   \* statistic objects created so far
+    cnt = [i \in 1..(NR + 2) |-> 0],   \* statistic object -> requests counted on it
+    admitted = 0,                  \* requests admitted so far (what the statistic SHOULD show)
+    probes = << >>;                \* sequential requests after quiescence [pass, before, k]
 
 define {
     \* version k may have been current at some instant in (loads[k].ls, loads[k+1].le)
@@ -39,38 +83,74 @@ define {
         /\ k \in DOMAIN loads /\ loads[k].ls < ret
         /\ (k + 1 \in DOMAIN loads /\ loads[k+1].le # 0) => inv < loads[k+1].le
     OldOrNew == \A r \in done : ~r.pass /\ CurrentDuring(r.marker, r.inv, r.ret)
+    \* does rule cell c reject a request that was given statistic object mine
+    CellRejects(c, mine) == Rejects(cnt[IF c.stat = 0 THEN mine ELSE c.stat], c.thr)
+    ListAdmits(lst, mine) == \A i \in 1..Len(lst) : ~CellRejects(lst[i], mine)
+    Quiescent == \A i \in 0..NR : pc[i] = "Done"
+    Enforced == \A i \in 1..Len(probes) : probes[i].pass <=> ~Rejects(probes[i].before, Limit(probes[i].k))
+    StatAgrees == Quiescent => (reg # 0 /\ cnt[reg] = admitted)
+    OneObject == nn <= 1
 }
 
 process (loader = 0)
-variable k = 2;
+variables k = First + 1, st = 0;
 {
   l_begin: while (k <= K) {
       seq := seq + 1; loads := loads @@ (k :> [ls |-> seq + 1, le |-> 0]);
+  l_bind:  \* build the new list outside the rule lock: bind its rules to a statistic object
+           if (Bind = "req") { st := 0; }
+           else if (Len(heap[cur]) > 0) { st := heap[cur][1].stat; }     \* reuse the object of the list in force
+           else { st := reg; };                                           \* first look (read-locked)
+           if (Bind = "req" \/ st # 0) { goto l_lock; };
+  l_store: if (Recheck /\ reg # 0) { st := reg; }                         \* write section: second look
+           else { nn := nn + 1; reg := nn; st := nn; };
   l_lock:  await lock = 0; lock := -1;
-  l_w1:    if (Swap) { heap := heap @@ (k :> Version(k)); cur := k; }
-           else { heap[cur][1] := [k |-> k, pos |-> 1]; };
-  l_w2:    if (~Swap) { heap[cur][2] := [k |-> k, pos |-> 2]; };
+  l_w1:    if (Swap) { heap := heap @@ (k :> Version(k, st)); cur := k; }
+           else { heap[cur][1] := Cell(k, 1, st); };
+  l_w2:    if (~Swap) { heap[cur][2] := Cell(k, 2, st); };
   l_unlock: lock := 0; seq := seq + 1; loads[k].le := seq + 1; k := k + 1;
   }
 }
 
 process (r \in 1..NR)
-variables inv = 0, obj = 0, c1 = [k |-> 0, pos |-> 0];
+variables inv = 0, obj = 0, c1 = NoCell, mine = 0;
 {
   r_inv:   seq := seq + 1; inv := seq + 1;
+  r_look:  mine := reg;                           \* first use: look the statistic object up (read-locked)
+           if (mine # 0) { goto r_lock; };
+  r_store: if (Recheck /\ reg # 0) { mine := reg; }                       \* write section: second look
+           else { nn := nn + 1; reg := nn; mine := nn; };
   r_lock:  await lock >= 0; lock := lock + 1;
   r_snap:  obj := cur; lock := lock - 1;          \* the list is obtained under the read lock, evaluated outside
-  r_rule1: c1 := heap[obj][1];
-           if (Blocks(c1.k, c1.pos)) {
-               seq := seq + 1; done := done \cup {[inv |-> inv, ret |-> seq + 1, pass |-> FALSE, marker |-> c1.k]}; goto Done; };
-  r_rule2: seq := seq + 1;
-           with (c2 = heap[obj][2]) {
-               done := done \cup {[inv |-> inv, ret |-> seq + 1, pass |-> ~Blocks(c2.k, c2.pos), marker |-> c2.k]};
+  r_rule1: if (Len(heap[obj]) = 0) { goto r_pass; }
+           else {
+               c1 := heap[obj][1];
+               if (CellRejects(c1, mine)) {
+                   seq := seq + 1; done := done \cup {[inv |-> inv, ret |-> seq + 1, pass |-> FALSE, marker |-> c1.k]}; goto Done; };
            };
+  r_rule2: if (CellRejects(heap[obj][2], mine)) {
+               seq := seq + 1; done := done \cup {[inv |-> inv, ret |-> seq + 1, pass |-> FALSE, marker |-> heap[obj][2].k]}; goto Done; };
+  r_pass:  \* admitted: counted on the statistic object the request was given
+           cnt[mine] := cnt[mine] + 1; admitted := admitted + 1;
+           seq := seq + 1;
+           done := done \cup {[inv |-> inv, ret |-> seq + 1, pass |-> TRUE, marker |-> IF Len(heap[obj]) = 0 THEN 0 ELSE heap[obj][2].k]};
+}
+
+process (prober = NR + 1)
+variable pi = 1;
+{
+  p_wait:  await Quiescent;
+  p_probe: while (pi <= P) {
+               \* one sequential request (nothing else runs): registered object, list in force, count
+               probes := Append(probes, [pass |-> ListAdmits(heap[cur], reg), before |-> admitted, k |-> IF Len(heap[cur]) = 0 THEN 0 ELSE heap[cur][1].k]);
+               if (ListAdmits(heap[cur], reg)) { cnt[reg] := cnt[reg] + 1; admitted := admitted + 1; };
+               pi := pi + 1;
+           }
 }
 } *)
-\* BEGIN TRANSLATION (chksum(pcal) = "66414f0" /\ chksum(tla) = "83075089")
-VARIABLES pc, heap, cur, lock, seq, loads, done
+\* BEGIN TRANSLATION (chksum(pcal) = "3e297a4c" /\ chksum(tla) = "8ca339d3")
+VARIABLES pc, heap, cur, lock, seq, loads, done, reg, nn, cnt, admitted, 
+          probes
 
 (* define statement *)
 CurrentDuring(k, inv, ret) ==
@@ -78,59 +158,104 @@ CurrentDuring(k, inv, ret) ==
     /\ (k + 1 \in DOMAIN loads /\ loads[k+1].le # 0) => inv < loads[k+1].le
 OldOrNew == \A r \in done : ~r.pass /\ CurrentDuring(r.marker, r.inv, r.ret)
 
-VARIABLES k, inv, obj, c1
+CellRejects(c, mine) == Rejects(cnt[IF c.stat = 0 THEN mine ELSE c.stat], c.thr)
+ListAdmits(lst, mine) == \A i \in 1..Len(lst) : ~CellRejects(lst[i], mine)
+Quiescent == \A i \in 0..NR : pc[i] = "Done"
+Enforced == \A i \in 1..Len(probes) : probes[i].pass <=> ~Rejects(probes[i].before, Limit(probes[i].k))
+StatAgrees == Quiescent => (reg # 0 /\ cnt[reg] = admitted)
+OneObject == nn <= 1
 
-vars == << pc, heap, cur, lock, seq, loads, done, k, inv, obj, c1 >>
+VARIABLES k, st, inv, obj, c1, mine, pi
 
-ProcSet == {0} \cup (1..NR)
+vars == << pc, heap, cur, lock, seq, loads, done, reg, nn, cnt, admitted, 
+           probes, k, st, inv, obj, c1, mine, pi >>
+
+ProcSet == {0} \cup (1..NR) \cup {NR + 1}
 
 Init == (* Global variables *)
-        /\ heap = (1 :> Version(1))
-        /\ cur = 1
+        /\ heap = IF Fresh THEN (0 :> << >>) ELSE (1 :> Version(1, 1))
+        /\ cur = First
         /\ lock = 0
         /\ seq = 0
-        /\ loads = (1 :> [ls |-> 0, le |-> 0])
+        /\ loads = (First :> [ls |-> 0, le |-> 0])
         /\ done = {}
+        /\ reg = IF Fresh THEN 0 ELSE 1
+        /\ nn = IF Fresh THEN 0 ELSE 1
+        /\ cnt = [i \in 1..(NR + 2) |-> 0]
+        /\ admitted = 0
+        /\ probes = << >>
         (* Process loader *)
-        /\ k = 2
+        /\ k = First + 1
+        /\ st = 0
         (* Process r *)
         /\ inv = [self \in 1..NR |-> 0]
         /\ obj = [self \in 1..NR |-> 0]
-        /\ c1 = [self \in 1..NR |-> [k |-> 0, pos |-> 0]]
+        /\ c1 = [self \in 1..NR |-> NoCell]
+        /\ mine = [self \in 1..NR |-> 0]
+        (* Process prober *)
+        /\ pi = 1
         /\ pc = [self \in ProcSet |-> CASE self = 0 -> "l_begin"
-                                        [] self \in 1..NR -> "r_inv"]
+                                        [] self \in 1..NR -> "r_inv"
+                                        [] self = NR + 1 -> "p_wait"]
 
 l_begin == /\ pc[0] = "l_begin"
            /\ IF k <= K
                  THEN /\ seq' = seq + 1
                       /\ loads' = loads @@ (k :> [ls |-> seq' + 1, le |-> 0])
-                      /\ pc' = [pc EXCEPT ![0] = "l_lock"]
+                      /\ pc' = [pc EXCEPT ![0] = "l_bind"]
                  ELSE /\ pc' = [pc EXCEPT ![0] = "Done"]
                       /\ UNCHANGED << seq, loads >>
-           /\ UNCHANGED << heap, cur, lock, done, k, inv, obj, c1 >>
+           /\ UNCHANGED << heap, cur, lock, done, reg, nn, cnt, admitted, 
+                           probes, k, st, inv, obj, c1, mine, pi >>
+
+l_bind == /\ pc[0] = "l_bind"
+          /\ IF Bind = "req"
+                THEN /\ st' = 0
+                ELSE /\ IF Len(heap[cur]) > 0
+                           THEN /\ st' = heap[cur][1].stat
+                           ELSE /\ st' = reg
+          /\ IF Bind = "req" \/ st' # 0
+                THEN /\ pc' = [pc EXCEPT ![0] = "l_lock"]
+                ELSE /\ pc' = [pc EXCEPT ![0] = "l_store"]
+          /\ UNCHANGED << heap, cur, lock, seq, loads, done, reg, nn, cnt, 
+                          admitted, probes, k, inv, obj, c1, mine, pi >>
+
+l_store == /\ pc[0] = "l_store"
+           /\ IF Recheck /\ reg # 0
+                 THEN /\ st' = reg
+                      /\ UNCHANGED << reg, nn >>
+                 ELSE /\ nn' = nn + 1
+                      /\ reg' = nn'
+                      /\ st' = nn'
+           /\ pc' = [pc EXCEPT ![0] = "l_lock"]
+           /\ UNCHANGED << heap, cur, lock, seq, loads, done, cnt, admitted, 
+                           probes, k, inv, obj, c1, mine, pi >>
 
 l_lock == /\ pc[0] = "l_lock"
           /\ lock = 0
           /\ lock' = -1
           /\ pc' = [pc EXCEPT ![0] = "l_w1"]
-          /\ UNCHANGED << heap, cur, seq, loads, done, k, inv, obj, c1 >>
+          /\ UNCHANGED << heap, cur, seq, loads, done, reg, nn, cnt, admitted, 
+                          probes, k, st, inv, obj, c1, mine, pi >>
 
 l_w1 == /\ pc[0] = "l_w1"
         /\ IF Swap
-              THEN /\ heap' = heap @@ (k :> Version(k))
+              THEN /\ heap' = heap @@ (k :> Version(k, st))
                    /\ cur' = k
-              ELSE /\ heap' = [heap EXCEPT ![cur][1] = [k |-> k, pos |-> 1]]
+              ELSE /\ heap' = [heap EXCEPT ![cur][1] = Cell(k, 1, st)]
                    /\ cur' = cur
         /\ pc' = [pc EXCEPT ![0] = "l_w2"]
-        /\ UNCHANGED << lock, seq, loads, done, k, inv, obj, c1 >>
+        /\ UNCHANGED << lock, seq, loads, done, reg, nn, cnt, admitted, probes, 
+                        k, st, inv, obj, c1, mine, pi >>
 
 l_w2 == /\ pc[0] = "l_w2"
         /\ IF ~Swap
-              THEN /\ heap' = [heap EXCEPT ![cur][2] = [k |-> k, pos |-> 2]]
+              THEN /\ heap' = [heap EXCEPT ![cur][2] = Cell(k, 2, st)]
               ELSE /\ TRUE
                    /\ heap' = heap
         /\ pc' = [pc EXCEPT ![0] = "l_unlock"]
-        /\ UNCHANGED << cur, lock, seq, loads, done, k, inv, obj, c1 >>
+        /\ UNCHANGED << cur, lock, seq, loads, done, reg, nn, cnt, admitted, 
+                        probes, k, st, inv, obj, c1, mine, pi >>
 
 l_unlock == /\ pc[0] = "l_unlock"
             /\ lock' = 0
@@ -138,53 +263,119 @@ l_unlock == /\ pc[0] = "l_unlock"
             /\ loads' = [loads EXCEPT ![k].le = seq' + 1]
             /\ k' = k + 1
             /\ pc' = [pc EXCEPT ![0] = "l_begin"]
-            /\ UNCHANGED << heap, cur, done, inv, obj, c1 >>
+            /\ UNCHANGED << heap, cur, done, reg, nn, cnt, admitted, probes, 
+                            st, inv, obj, c1, mine, pi >>
 
-loader == l_begin \/ l_lock \/ l_w1 \/ l_w2 \/ l_unlock
+loader == l_begin \/ l_bind \/ l_store \/ l_lock \/ l_w1 \/ l_w2
+             \/ l_unlock
 
 r_inv(self) == /\ pc[self] = "r_inv"
                /\ seq' = seq + 1
                /\ inv' = [inv EXCEPT ![self] = seq' + 1]
-               /\ pc' = [pc EXCEPT ![self] = "r_lock"]
-               /\ UNCHANGED << heap, cur, lock, loads, done, k, obj, c1 >>
+               /\ pc' = [pc EXCEPT ![self] = "r_look"]
+               /\ UNCHANGED << heap, cur, lock, loads, done, reg, nn, cnt, 
+                               admitted, probes, k, st, obj, c1, mine, pi >>
+
+r_look(self) == /\ pc[self] = "r_look"
+                /\ mine' = [mine EXCEPT ![self] = reg]
+                /\ IF mine'[self] # 0
+                      THEN /\ pc' = [pc EXCEPT ![self] = "r_lock"]
+                      ELSE /\ pc' = [pc EXCEPT ![self] = "r_store"]
+                /\ UNCHANGED << heap, cur, lock, seq, loads, done, reg, nn, 
+                                cnt, admitted, probes, k, st, inv, obj, c1, pi >>
+
+r_store(self) == /\ pc[self] = "r_store"
+                 /\ IF Recheck /\ reg # 0
+                       THEN /\ mine' = [mine EXCEPT ![self] = reg]
+                            /\ UNCHANGED << reg, nn >>
+                       ELSE /\ nn' = nn + 1
+                            /\ reg' = nn'
+                            /\ mine' = [mine EXCEPT ![self] = nn']
+                 /\ pc' = [pc EXCEPT ![self] = "r_lock"]
+                 /\ UNCHANGED << heap, cur, lock, seq, loads, done, cnt, 
+                                 admitted, probes, k, st, inv, obj, c1, pi >>
 
 r_lock(self) == /\ pc[self] = "r_lock"
                 /\ lock >= 0
                 /\ lock' = lock + 1
                 /\ pc' = [pc EXCEPT ![self] = "r_snap"]
-                /\ UNCHANGED << heap, cur, seq, loads, done, k, inv, obj, c1 >>
+                /\ UNCHANGED << heap, cur, seq, loads, done, reg, nn, cnt, 
+                                admitted, probes, k, st, inv, obj, c1, mine, 
+                                pi >>
 
 r_snap(self) == /\ pc[self] = "r_snap"
                 /\ obj' = [obj EXCEPT ![self] = cur]
                 /\ lock' = lock - 1
                 /\ pc' = [pc EXCEPT ![self] = "r_rule1"]
-                /\ UNCHANGED << heap, cur, seq, loads, done, k, inv, c1 >>
+                /\ UNCHANGED << heap, cur, seq, loads, done, reg, nn, cnt, 
+                                admitted, probes, k, st, inv, c1, mine, pi >>
 
 r_rule1(self) == /\ pc[self] = "r_rule1"
-                 /\ c1' = [c1 EXCEPT ![self] = heap[obj[self]][1]]
-                 /\ IF Blocks(c1'[self].k, c1'[self].pos)
-                       THEN /\ seq' = seq + 1
-                            /\ done' = (done \cup {[inv |-> inv[self], ret |-> seq' + 1, pass |-> FALSE, marker |-> c1'[self].k]})
-                            /\ pc' = [pc EXCEPT ![self] = "Done"]
-                       ELSE /\ pc' = [pc EXCEPT ![self] = "r_rule2"]
-                            /\ UNCHANGED << seq, done >>
-                 /\ UNCHANGED << heap, cur, lock, loads, k, inv, obj >>
+                 /\ IF Len(heap[obj[self]]) = 0
+                       THEN /\ pc' = [pc EXCEPT ![self] = "r_pass"]
+                            /\ UNCHANGED << seq, done, c1 >>
+                       ELSE /\ c1' = [c1 EXCEPT ![self] = heap[obj[self]][1]]
+                            /\ IF CellRejects(c1'[self], mine[self])
+                                  THEN /\ seq' = seq + 1
+                                       /\ done' = (done \cup {[inv |-> inv[self], ret |-> seq' + 1, pass |-> FALSE, marker |-> c1'[self].k]})
+                                       /\ pc' = [pc EXCEPT ![self] = "Done"]
+                                  ELSE /\ pc' = [pc EXCEPT ![self] = "r_rule2"]
+                                       /\ UNCHANGED << seq, done >>
+                 /\ UNCHANGED << heap, cur, lock, loads, reg, nn, cnt, 
+                                 admitted, probes, k, st, inv, obj, mine, pi >>
 
 r_rule2(self) == /\ pc[self] = "r_rule2"
-                 /\ seq' = seq + 1
-                 /\ LET c2 == heap[obj[self]][2] IN
-                      done' = (done \cup {[inv |-> inv[self], ret |-> seq' + 1, pass |-> ~Blocks(c2.k, c2.pos), marker |-> c2.k]})
-                 /\ pc' = [pc EXCEPT ![self] = "Done"]
-                 /\ UNCHANGED << heap, cur, lock, loads, k, inv, obj, c1 >>
+                 /\ IF CellRejects(heap[obj[self]][2], mine[self])
+                       THEN /\ seq' = seq + 1
+                            /\ done' = (done \cup {[inv |-> inv[self], ret |-> seq' + 1, pass |-> FALSE, marker |-> heap[obj[self]][2].k]})
+                            /\ pc' = [pc EXCEPT ![self] = "Done"]
+                       ELSE /\ pc' = [pc EXCEPT ![self] = "r_pass"]
+                            /\ UNCHANGED << seq, done >>
+                 /\ UNCHANGED << heap, cur, lock, loads, reg, nn, cnt, 
+                                 admitted, probes, k, st, inv, obj, c1, mine, 
+                                 pi >>
 
-r(self) == r_inv(self) \/ r_lock(self) \/ r_snap(self) \/ r_rule1(self)
-              \/ r_rule2(self)
+r_pass(self) == /\ pc[self] = "r_pass"
+                /\ cnt' = [cnt EXCEPT ![mine[self]] = cnt[mine[self]] + 1]
+                /\ admitted' = admitted + 1
+                /\ seq' = seq + 1
+                /\ done' = (done \cup {[inv |-> inv[self], ret |-> seq' + 1, pass |-> TRUE, marker |-> IF Len(heap[obj[self]]) = 0 THEN 0 ELSE heap[obj[self]][2].k]})
+                /\ pc' = [pc EXCEPT ![self] = "Done"]
+                /\ UNCHANGED << heap, cur, lock, loads, reg, nn, probes, k, st, 
+                                inv, obj, c1, mine, pi >>
+
+r(self) == r_inv(self) \/ r_look(self) \/ r_store(self) \/ r_lock(self)
+              \/ r_snap(self) \/ r_rule1(self) \/ r_rule2(self)
+              \/ r_pass(self)
+
+p_wait == /\ pc[NR + 1] = "p_wait"
+          /\ Quiescent
+          /\ pc' = [pc EXCEPT ![NR + 1] = "p_probe"]
+          /\ UNCHANGED << heap, cur, lock, seq, loads, done, reg, nn, cnt, 
+                          admitted, probes, k, st, inv, obj, c1, mine, pi >>
+
+p_probe == /\ pc[NR + 1] = "p_probe"
+           /\ IF pi <= P
+                 THEN /\ probes' = Append(probes, [pass |-> ListAdmits(heap[cur], reg), before |-> admitted, k |-> IF Len(heap[cur]) = 0 THEN 0 ELSE heap[cur][1].k])
+                      /\ IF ListAdmits(heap[cur], reg)
+                            THEN /\ cnt' = [cnt EXCEPT ![reg] = cnt[reg] + 1]
+                                 /\ admitted' = admitted + 1
+                            ELSE /\ TRUE
+                                 /\ UNCHANGED << cnt, admitted >>
+                      /\ pi' = pi + 1
+                      /\ pc' = [pc EXCEPT ![NR + 1] = "p_probe"]
+                 ELSE /\ pc' = [pc EXCEPT ![NR + 1] = "Done"]
+                      /\ UNCHANGED << cnt, admitted, probes, pi >>
+           /\ UNCHANGED << heap, cur, lock, seq, loads, done, reg, nn, k, st, 
+                           inv, obj, c1, mine >>
+
+prober == p_wait \/ p_probe
 
 (* Allow infinite stuttering to prevent deadlock on termination. *)
 Terminating == /\ \A self \in ProcSet: pc[self] = "Done"
                /\ UNCHANGED vars
 
-Next == loader
+Next == loader \/ prober
            \/ (\E self \in 1..NR: r(self))
            \/ Terminating
 
